@@ -20,7 +20,8 @@ func init() { register(validateStream{}) }
 func (validateStream) Name() string          { return "validate" }
 func (validateStream) TrivialTags() []string { return nil }
 
-const validateRoot = "/tmp/cdi-verif-validate"
+// per-process scratch root: concurrent runs of the harness must not share a tree
+var validateRoot = scratchRoot("/tmp/cdi-verif-validate")
 
 // ---- well-formed document generator
 
